@@ -58,6 +58,26 @@ CHECKS = {
          "unrestricted 'whatever else fails' statement is proved FALSE (C10_refuted_seq) and recorded as two known-finding "
          "classes; valid lines are checked strictly by the oracle (request at every piece boundary, innermost level marker)." + DIFF,
          "4/C10", "Rocq proof (never-a-value from the ledger, help lookup lemma, refutation witness) over a hand-written model + differential correspondence + help-position oracle"),
+ "C03": ("proof", "PARTIAL. Theorems in coq/Props/C03.v (all named *_partial): tokenisation is local, so reordering whole occurrences "
+         "reorders their token groups and changes nothing else; named consumers search the whole scope and take the leftmost "
+         "match; a flag's value does not depend on position; positional consumers skip named items. The full statement "
+         "(whole-run invariance under the constrained permutations) is kept visible in the file and is decided by the "
+         "metamorphic oracle (random constrained permutations of generated sentences) and the differential run." + DIFF,
+         "4/C03", "Rocq proof of the two mechanisms (partial) over a hand-written model + differential correspondence + permutation oracle"),
+ "C18": ("proof", "Theorems in coq/Props/C18.v: C18_frame -- for EVERY parser and vector, two environments that agree on the declared "
+         "variables give the same run_inner outcome (mutual induction, all combinator bodies shown extensional, no axioms); "
+         "leaf precedence: line first, else the first set declared variable through the same conversion, else a catchable "
+         "absence naming the item or variable; a flag is present iff on the line or a variable is set. Precedence under "
+         "every wrapper is decided by the metamorphic oracle (undeclared variables inert; item on the line makes its variable "
+         "irrelevant; absent + variable = given once); one genuine defect is a known finding." + DIFF,
+         "4/C18", "Rocq proof (frame law by mutual induction + leaf laws) over a hand-written model + differential correspondence + environment oracle"),
+ "C19": ("proof", "Theorems in coq/Props/C19.v: C19_contiguous -- if an adjacent group (members that keep their scope: flags, arguments, "
+         "positionals, optional/guard/parse/map, construct!) yields a value there is ONE interval [a,b) such that every "
+         "available item in it is consumed, nothing outside it is consumed and the enclosing scope is restored; the block "
+         "starts at the start offset that succeeded; windows are runs of live items; the retry loop's return condition. Nested "
+         "adjacent groups / commands inside groups are outside the hypothesis (tie only). Block order and full conformance are "
+         "decided by the oracle (unique sentinels, span check) and the differential run." + DIFF,
+         "4/C19", "Rocq proof (block theorem by induction over the retry loop) over a hand-written model + differential correspondence + span oracle"),
 }
 
 NA_REASON = "check not built yet in this revision (machinery under construction; see DESIGN.md section 7 staging)"
